@@ -139,6 +139,7 @@ Section CI.
   | OPop (k : str) (dflt : option value)
   | OSetDefault (k : str) (dflt : value)
   | OUpdate (e : items) | OUpdateKw (kw : items)
+  | OUpdateBoth (e kw : items)      (* d.update(pairs, **kw) in one call *)
   | ORebuild          (* d = CI(d.default_factory, list(d.items())) *)
   | OCopy | ODeepCopy | OPickle
   | OMoveToEnd (k : str).
@@ -178,6 +179,7 @@ Section CI.
     | OSetDefault k dflt => lift_val d (ci_setdefault f k dflt s)
     | OUpdate e => lift_items d (ci_update (Some e) [] s)
     | OUpdateKw kw => lift_items d (ci_update None kw s)
+    | OUpdateBoth e kw => lift_items d (ci_update (Some e) kw s)
     | ORebuild => lift_cid d (ci_new f s)
     | OCopy => lift_cid d (ci_copy d)
     | ODeepCopy => lift_cid d (ci_deepcopy d)
